@@ -84,6 +84,8 @@ class StreamMonitor:
         self.case = None
         self.hist = weakref.WeakKeyDictionary()
         self.twins = weakref.WeakKeyDictionary()
+        self.renew = weakref.WeakKeyDictionary()
+        self.uses = weakref.WeakKeyDictionary()
         self.in_finalize = set()
         self._hsum = weakref.WeakKeyDictionary()
 
@@ -188,10 +190,13 @@ class StreamMonitor:
             self.v("a streaming result is not (frames, %d): shapes %r" % (F, [o.shape for o in outs][:10]), check="shape", **info)
             return
         got = np.concatenate(outs)
+        # the reference object is reused for speed, but not across the histories in which state could survive unnoticed on
+        # both sides alike: after an utterance without frames (and every 64th time anyway) a new one is constructed
         twin = self.twins.get(comp)
-        if twin is None:
+        if twin is None or self.renew.get(comp):
             twin = make_twin(comp)
             self.twins[comp] = twin
+            self.rec.count("reference_objects_constructed")
         with monitor.quiet():
             try:
                 want = twin.compute_full(x)
@@ -199,6 +204,8 @@ class StreamMonitor:
                 self.rec.count("twin_compute_full_raised")
                 self.rec.note("twin raised %r for %r" % (e, info))
                 return
+        self.uses[comp] = self.uses.get(comp, 0) + 1
+        self.renew[comp] = bool(want.shape[0] == 0 or self.uses[comp] % 64 == 0)
         self.rec.count("streamed_utterances_%s" % info["kind"])
         self.rec.count("frames_compared", int(want.shape[0]))
         fl, fs = info["fl"], info["fs"]
